@@ -768,9 +768,42 @@ func checkBindUniqueness(c *Check) {
 					usesField = true
 				}
 			})
+			// what is returned holds the field's contents: the list itself, a literal of the bind, or a copy that is
+			// as long as the list (make(len) + copy, or append onto an empty slice)
+			full := true
+			isBinds := vOr(vField(recv, "binds"), vField(recv, "bind"))
+			allInstrs(fn, func(in ssa.Instruction) {
+				r, ok := in.(*ssa.Return)
+				if !ok || vNil(r.Results[0]) {
+					return
+				}
+				rv := strip(r.Results[0])
+				switch x := rv.(type) {
+				case *ssa.MakeSlice:
+					// copy(dst, binds) with len(dst) == len(binds)
+					okLen := vLen(vField(recv, "binds"))(x.Len)
+					okCopy := false
+					for _, ref := range referrers(x) {
+						if cl, isC := ref.(*ssa.Call); isC && callName(&cl.Call) == "builtin.copy" && strip(cl.Call.Args[0]) == ssa.Value(x) && vField(recv, "binds")(cl.Call.Args[1]) {
+							okCopy = true
+						}
+					}
+					if !okLen || !okCopy {
+						full = false
+					}
+				case *ssa.Call:
+					if callName(&x.Call) != "builtin.append" || !derivesFrom(x, isBinds, nil) {
+						full = false
+					}
+				default:
+					if !isBinds(rv) && !derivesFrom(rv, isBinds, nil) {
+						full = false
+					}
+				}
+			})
 			switch rt {
 			case "placeholderTree", "matchAllTree", "regexTree":
-				c.Cond(nonNil && usesField, key, p.FuncPos(fn), rt+" reports its bind(s)", rt+".getBinds() does not report the node's binds: descendants may reuse the name")
+				c.Cond(nonNil && usesField && full, key, p.FuncPos(fn), rt+" reports its bind(s)", rt+".getBinds() does not report the node's binds (all of them): descendants may reuse the name")
 			default:
 				c.OK(key, p.FuncPos(fn), rt+" carries no binds", 1)
 			}
@@ -779,7 +812,8 @@ func checkBindUniqueness(c *Check) {
 }
 
 func checkBindListLoop(c *Check, fn *ssa.Function, al *ssa.Alloc, bindsV ssa.Value, set VM, key, pos string) {
-	list := vIs(bindsV)
+	// the stored list itself, or another read of the same field of the same local (binds kept in a struct)
+	list := func(v ssa.Value) bool { return sameValue(v, bindsV) }
 	var elem, idx ssa.Value
 	allInstrs(fn, func(in ssa.Instruction) {
 		if v, ok := in.(ssa.Value); ok && elem == nil {
